@@ -34,6 +34,7 @@ TInit ==
   /\ LET t == Traces[tid] IN
      /\ tab = Tab(t) /\ vdef = t.vdef /\ rules = t.rules /\ sheet0 = <<t.vdef, t.rules>>
   /\ phase = "run" /\ i = 1 /\ acc = 0 /\ tuned = 0 /\ failed = 0 /\ cards = {} /\ failedSel = {} /\ rootDirty = {}
+  /\ hackAt = Traces[tid].hackAt /\ aborted = FALSE      \* (position of the first rule with a star hack next to its colour, or 0)
   /\ finished = FALSE
 
 \* the oracle table is filled lazily by the harness: when the next step needs an entry that is not there yet, the run
@@ -56,6 +57,7 @@ Mismatch ==
      \cup (IF predCards = obsCards THEN {} ELSE {"D_CliCards"})
      \cup (IF failedSel = ToSet(o.listed) THEN {} ELSE {"D_CliListed"})
      \cup (IF \A k \in colored : o.eff[k] = -2 \/ Eff(k) = o.eff[k] THEN {} ELSE {"D_CliWritten"})
+     \cup (IF aborted = ~o.written THEN {} ELSE {"D_CliAborted"})       \* the model's "no output" = no output file
 Accept ==
   /\ ~finished /\ Done
   /\ KitFinish(tid, {}, Mismatch)
